@@ -46,7 +46,7 @@ def judge_history(h, obs):
                 if e["res"] == "nil" and o["result"] != "nil":
                     bad.append("step %d: NoNewPrivs requested, valid filter, the kernel (as specified) accepts it, but the load failed: %s" % (o["step"], o.get("error")))
                 if "hook_flags" in o and caller["nnp"] != 1:
-                    bad.append("step %d: NoNewPrivs requested but the calling thread does not carry the bit after the load" % o["step"])
+                    bad.append("step %d: NoNewPrivs requested but the filter was handed to the kernel and the calling thread does not carry the bit" % o["step"])
             if not e["nnp"] and before is not None and caller["nnp"] != before["nnp"]:
                 bad.append("step %d: NoNewPrivs not requested but the calling thread's bit changed from %d to %d" % (o["step"], before["nnp"], caller["nnp"]))
             if not e["nnp"] and not h["priv"] and before is not None and before["nnp"] == 0 and e["pol"] == "valid":
@@ -72,7 +72,26 @@ def histories(ctx, d, th):
     ctx.cov["states"] -= r["distinct"]
     ctx.cov["transitions"] -= r["generated"]
     hists = [h for h in lf.histories(r["out"]) if sum(1 for e in h["hist"] if e["op"] == "load") >= 2]
+    # ... and under an enclosing filter that answers prctl(2) with EPERM: a requested bit that cannot be set must stop the load
+    r2 = ctx.tlc("LoaderGen", lf.gen_cfg("{pool, t1, t2}", 2, '{{}, {"TSYNC"}}', '{"valid"}', "{t1, t2}", False, allow_deny=True), name="LoaderGenC11deny", timeout=3000)
+    ctx.cov["states"] -= r2["distinct"]
+    ctx.cov["transitions"] -= r2["generated"]
+    def denied_load(h):
+        """(privileged, the caller's bit before the call, thread-sync) of the first load that requests the bit on a thread where prctl(2) is denied."""
+        prev = None
+        for e in h["hist"]:
+            if e["op"] == "load" and e["nnp"] and any(x < 0 for x in e["state"][e["caller"]]["chain"]):
+                before = prev["state"].get(e["caller"], {"nnp": False})["nnp"] if prev else False
+                return (h["priv"], before, "TSYNC" in e["flags"])
+            prev = e
+        return None
+    denied = [h for h in lf.histories(r2["out"]) if denied_load(h)]
+    if len(set(denied_load(h) for h in denied)) < 6:
+        raise vlib.Machinery("histories with a denied prctl cover only the classes %s" % sorted(set(denied_load(h) for h in denied)))
     picked, nclasses = lf.sample(hists, 900 if th else 160, ctx.seed, htags)
+    p2, n2 = lf.sample(denied, 400 if th else 80, ctx.seed, denied_load)
+    picked += p2
+    nclasses += n2
 
     def one(h):
         script = lf.to_script(h, 3)
